@@ -12,11 +12,11 @@ CHECKS = {
          "Reference oracle and the 10s drift constant are trusted; values outside the alphabet are not covered.", "2.1 C01"),
  "C02": ("E1-inputs", "model_checking",
          "exhaustive enumeration of all header-kind sequences up to length L on the real VerifyRange vs a reference fold",
-         "All sequences of length 0..4 (quick) / 0..6 (thorough) over 12 per-position header kinds (incl. type-level soft and plain rejections of a well-formed adjacent header), for non-zero and zero trusted headers, are run on the real VerifyRange; result must be input[:k] by identity with k computed by a reference fold, error iff k<len.",
+         "All sequences of length 0..4 (quick) / 0..6 (thorough) over 13 per-position header kinds (incl. type-level soft and plain rejections of a well-formed adjacent header, and the predecessor / trusted header itself once more), for non-zero and zero trusted headers, are run on the real VerifyRange; result must be input[:k] by identity with k computed by a reference fold, error iff k<len.",
          "Reference fold (C01 reference + adjacency) and the harness header type's Verify are trusted.", "2.1 C02"),
  "C04": ("E1-seqx", "model_checking",
          "explicit-state BFS over operation histories on the real store.Store (replay-from-scratch successors, state dedup), invariant oracle in every state",
-         "Breadth-first exploration of every history (depth 3 quick / 4 thorough) over Append of all contiguous slices (len<=3, ascending and reversed; thorough: gapped pairs), tail/head/whole/middle/beyond DeleteRange, Append directly followed by DeleteRange on a slow datastore (flush still in flight), Restart and ReadAll, plus a clean-restart probe on every state of the last level, for batch sizes {1,2,(3),64} x cache sizes {2,default} x {plain, context-aware+txn} datastore, on the real Store inside a synctest bubble; in every reached state the C04 clauses (gap-free Tail..Head, lookups by height/hash agree, Has/HasAt, all GetRange pairs, Height==Head, Head top of run, every live header readable) are evaluated against a set-of-live-heights model.",
+         "Breadth-first exploration of every history (depth 3 quick / 4 thorough) over Append of all contiguous slices (len<=3, ascending and reversed; thorough: gapped pairs), tail/head/whole/middle/beyond DeleteRange, Append directly followed by DeleteRange on a slow datastore (flush still in flight), Restart, Restart followed by the header right above Head, and ReadAll, plus a clean-restart probe on every state of the last level, for batch sizes {1,2,(3),64} x cache sizes {2,default} x {plain, context-aware+txn} datastore, on the real Store inside a synctest bubble; in every reached state the C04 clauses (gap-free Tail..Head, lookups by height/hash agree, Has/HasAt, all GetRange pairs, Height==Head, Head top of run, every live header readable) are evaluated against a set-of-live-heights model.",
          "State key omits 2Q ghost lists; chain of 5-6 headers; Sync+quiescence after each op (the property is stated for synced writes).", "2.2 C04"),
  "C08": ("E1-seqx", "model_checking",
          "explicit-state enumeration: every reachable store state x every (from,to) pair x continuation x single write-fault position, executed on the real store and compared with the reference model",
@@ -40,11 +40,11 @@ CHECKS = {
          "More than 4 tracked peers (random subset of map order) is not enumerated; hang + caller deadline coincidences accept either allowed outcome.", "2.4 C09"),
  "C10": ("E1-netx", "model_checking",
          "exhaustive enumeration of the request input product (origin x amount relative to tail/head incl. overflow, hashes, raw frames) against the real ExchangeServer over a real pruned store behind a recording proxy",
-         "All (origin, amount) pairs over 12 x 9 boundary values, hash and raw-byte requests, against stores [5..30], [1..12], [20..150], empty (thorough: [40..200], [1..70]); deviation bound 1: the store grows by {3,100} headers right after the k-th store call of a range request, for every k its fault-free run makes; oracle on reply shape/content and on work: headers asked from the store <= min(amount,64), no store call outside the requested heights, datastore reads bounded.",
+         "All (origin, amount) pairs over 12 x 9 boundary values, hash and raw-byte requests, against stores [5..30], [1..12], [20..150], empty (thorough: [40..200], [1..70]); deviation bound 1: the store grows by {3,100} headers right after the k-th store call of a range request, for every k its fault-free run makes, and the k-th store call stalls until the context the server gave it ends (the handler must be released by the server's own timeout); oracle on reply shape/content and on work: headers asked from the store <= min(amount,64), no store call outside the requested heights, datastore reads bounded.",
          "Work measured at the Store interface and as datastore reads of the real store.", "2.4 C10"),
  "C11": ("E1-netx", "model_checking",
          "exhaustive enumeration of payload x verifier-outcome classes on the real topic validator, plus the same classes through real gossipsub (delivery and relay observed)",
-         "12 payload classes x 11 verifier outcomes (132, complete) run on the Subscriber's real validator via the verif export: verdict must equal the reference mapping, verifier never called for undecodable/invalid payloads, ValidatorData is the decoded header, no panic escapes, waiting for a late SetVerifier works; 11 classes are additionally published over a 3-node gossipsub line to observe delivery to Subscriptions and relay.",
+         "12 payload classes x 11 verifier outcomes x {metrics off, on} (264, complete) run on the Subscriber's real validator via the verif export: verdict must equal the reference mapping, verifier never called for undecodable/invalid payloads, ValidatorData is the decoded header, no panic escapes, waiting for a late SetVerifier works; 11 classes are additionally published over a 3-node gossipsub line to observe delivery to Subscriptions and relay.",
          "Peer-score effects are inferred from the validation result (pubsub semantics trusted).", "2.4 C11"),
  "C13": ("E1-netx", "fault_enumeration",
          "exhaustive enumeration of per-peer answer assignments (20-entry catalogue; single-peer cases also after one successful warm-up request) and arrival orders for 1-3 (thorough 4) trusted peers against the real Exchange.Get/GetByHeight",
